@@ -259,12 +259,18 @@ Theorem tie_wb_dec_init : forall M N F wb_signature mm_new h aw dw g feats al na
   (let! '(h', m) := mm_new h (VInt (WbDecoder.map_aw (wgeom geom))) (VInt (WbDecoder.g_g (wgeom geom))) al in
    Ok (h', OWb true geom (Some m), [])).
 Proof.
-  intros * Hsig Haw Hdw Hg Hk Hpow. unfold gen_wb_dec_init.
-  fold g'. cbn [bind]. destruct (bi_is_none g); fold g'; cbn [bind]; rewrite Hsig; cbn [bind];
-    rewrite Hg; cbn [bi_zof]; rewrite Hpow, (py_exact_log2_pow2 k Hk); cbn [bind];
-    unfold WbDecoder.map_aw, WbDecoder.gbits; cbn [wgeom WbDecoder.g_aw WbDecoder.g_dw WbDecoder.g_g];
-    rewrite Hdw, Hpow, Z.log2_pow2, Haw by exact Hk;
-    destruct (mm_new h (VInt (Z.max 1 (aw + k))) (VInt (wb_g geom)) al) as [[h' m]|e]; reflexivity.
+  intros * Hsig Haw Hdw Hg Hk Hpow. unfold gen_wb_dec_init. subst g' aw dw.
+  unfold WbDecoder.map_aw, WbDecoder.gbits; cbn [wgeom WbDecoder.g_aw WbDecoder.g_dw WbDecoder.g_g].
+  rewrite Hpow, Z.log2_pow2 by exact Hk.
+  (* both values of `granularity is None`; the arithmetic of the address width up to rearrangement *)
+  destruct (bi_is_none g); cbn [bind]; rewrite Hsig; cbn [bind];
+    [injection Hg as Hg; rewrite Hg in Hpow |- * | subst g]; cbn [bi_zof];
+    rewrite Hpow, (py_exact_log2_pow2 k Hk); cbn [bind];
+    match goal with
+    | |- context [mm_new h (VInt ?a) ?x al] =>
+        replace a with (Z.max 1 (wb_aw geom + k)) by lia;
+        destruct (mm_new h (VInt (Z.max 1 (wb_aw geom + k))) x al) as [[h' m]|e]
+    end; try reflexivity.
 Qed.
 Print Assumptions tie_wb_dec_init.
 
